@@ -26,7 +26,7 @@ RULE = (
     "Parquet with row groups {1,2,n}, random generator} x columns {-,w,z,w+z} x dtype {f8,f4|i8,i4} x degrees x "
     "patch mode {centres, id column | patch_num} x progress x buffersize {-1,0,1,2,100}; parallel: W in {2,3} "
     "workers x n x chunksize, every delivery order of the pool tasks of every chunk (all interleavings of the "
-    "virtual pool/queue/writer process under the partial-order reduction of DESIGN.md E3b). Oracle: per patch "
+    "virtual pool/queue/writer process under the partial-order reduction of DESIGN.md E3b; on eight small instances also every completion order of the patch-loading pool). Oracle: per patch "
     "the multiset of stored records equals the input records assigned by an independent nearest-centre rule / "
     "the id column; weights and redshifts bit-identical to float64(input), coordinates within 2 ulp of "
     "deg2rad(float64(input)); reopened catalog identical; identical across all chunk sizes, buffer sizes, W and "
@@ -96,6 +96,10 @@ def cases(tier, seed):
                     continue  # bound on the number of delivery orders per case
                 for mode in ("centres", "ids"):
                     out.append(dict(part="par", W=W, n=n, chunksize=cs, mode=mode, cols="wz"))
+    # small instances in which the completion orders of the patch-loading pool are explored as well
+    for n, cs in ((2, None), (3, None), (3, 2), (4, 2)) if tier == "quick" else ((2, None), (3, None), (3, 2), (4, 2), (5, 3), (4, 1)):
+        for mode in ("centres", "ids"):
+            out.append(dict(part="par", W=2, n=n, chunksize=cs, mode=mode, cols="wz", load_orders=True))
     out.sort(key=lambda c: (c["part"] == "seq", -c["n"]))  # heavy (parallel) cases first
     return out
 
@@ -378,12 +382,13 @@ def run_par(case):
 
     try:
         # focus=-1: the order-mode pools (load_patches) keep submission order here, their orders are C05's
-        res = vmp.explore(body, observe=observe, max_exec=5000, focus=-1)
+        focus = None if case.get("load_orders") else -1
+        res = vmp.explore(body, observe=observe, max_exec=5000, focus=focus)
         cross = None
-        if n == 2 and cs is None and W == 2 and mode == "ids":
+        if n == 2 and cs is None and W == 2 and mode == "ids" and not case.get("load_orders"):
             # cross-check of the partial-order reduction on the smallest instance: the unreduced search
             # must produce exactly the same set of outcomes
-            full = vmp.explore(body, observe=observe, reduce=False, max_exec=8000, focus=-1)
+            full = vmp.explore(body, observe=observe, reduce=False, max_exec=20000, focus=focus)
             cross = dict(executions=full["executions"], capped=full["capped"],
                          same=set(full["outcomes"]) == set(res["outcomes"]))
     finally:
